@@ -135,7 +135,7 @@ impl Monitor for C07 {
     }
     fn begin(&mut self, w: &World, s0: &Snap, _r: &mut Report) {
         self.band.begin(s0);
-        self.sh.begin(s0);
+        self.sh.begin(w, s0);
         let d8 = w.cfg.decimals();
         self.own_reg = w.cfg.vamms.iter().map(|v| v.live && v.decimals.unwrap_or(d8) == d8).collect();
     }
@@ -264,6 +264,7 @@ impl Monitor for C07 {
     fn post(&mut self, w: &World, st: &Step, r: &mut Report) {
         self.band.observe(&st.pre, &st.post);
         self.sh.observe(w, st);
+        self.sh.report(r);
         if let (true, Op::Insurance { msg, .. }) = (st.out.ok, &st.op) {
             match msg {
                 margined_perp::margined_insurance_fund::ExecuteMsg::AddVamm { vamm } => {
